@@ -39,7 +39,10 @@ void* __libc_malloc(size_t); void __libc_free(void*); void* __libc_calloc(size_t
 extern char __data_start, _end;
 }
 
+int g_thrsim_malloc_fill = -1; ///< byte that fresh heap blocks are filled with (-1: left as the allocator returns them)
+
 namespace thrsim {
+void set_malloc_fill(int byte) { g_thrsim_malloc_fill = byte; }
 namespace {
 
 enum TState { T_UNUSED, T_RUNNABLE, T_BLOCKED, T_DONE };
@@ -473,13 +476,17 @@ void* __wrap_memmove(void* d, const void* s, size_t n) { if (n && g_active && !t
 void* __wrap_memset(void* d, int c, size_t n) { if (n && g_active && !tl_in_rt) access((uintptr_t)d, (unsigned)std::min<size_t>(n, 1u << 16), true, PC); return __real_memset(d, c, n); }
 
 // ---- allocator: interposed for the whole process so that reuse of freed memory is never a race
-void* malloc(size_t n) { return __libc_malloc(n); }
+// the simulator decides what "uninitialised heap memory" contains: fresh blocks are filled with a byte the workload
+// chooses (different in the simulated and in the sequential executions), so a value computed from heap memory that was
+// never written makes the executions disagree instead of depending on what the allocator happens to recycle
+static inline void* filled(void* p, size_t n) { if (p && g_thrsim_malloc_fill >= 0 && n <= (1u << 20)) __real_memset(p, g_thrsim_malloc_fill, n); return p; }
+void* malloc(size_t n) { return filled(__libc_malloc(n), n); }
 void* calloc(size_t a, size_t b) { return __libc_calloc(a, b); }
 void free(void* p) { if (p && g_active) clear_range((uintptr_t)p, malloc_usable_size(p)); __libc_free(p); }
 void* realloc(void* p, size_t n) { if (p && g_active) clear_range((uintptr_t)p, malloc_usable_size(p)); return __libc_realloc(p, n); }
-void* memalign(size_t al, size_t n) { return __libc_memalign(al, n); }
-void* aligned_alloc(size_t al, size_t n) { return __libc_memalign(al, n); }
-int posix_memalign(void** out, size_t al, size_t n) { void* p = __libc_memalign(al, n); if (!p) return ENOMEM; *out = p; return 0; }
+void* memalign(size_t al, size_t n) { return filled(__libc_memalign(al, n), n); }
+void* aligned_alloc(size_t al, size_t n) { return filled(__libc_memalign(al, n), n); }
+int posix_memalign(void** out, size_t al, size_t n) { void* p = filled(__libc_memalign(al, n), n); if (!p) return ENOMEM; *out = p; return 0; }
 
 // ---- mutexes (simulated while a simulation is active)
 int __wrap_pthread_mutex_lock(pthread_mutex_t* m)
